@@ -198,7 +198,8 @@ def runStage (st : Json) : Except String StageOut := do
     let ideal := mergeT false false dflt comb mf dflt r l k t
     let lastAttr := !clash && !(match m, ideal with | some a, some b => decide (a = b) | none, none => true | _, _ => false)
     let c := content dflt _ t
-    let exp := if op == "flatten" then flattenSpec comb k l c else mergeSpec comb mf dflt k l c
+    -- flatten = merge with the raising merge function: it raises iff two POINTS get the same image
+    let exp := mergeSpec comb mf dflt k l c
     let collide := (flattenSpec comb k l c).isNone
     let tags := [op, (fStrD st "style" ""), s!"k{k}", s!"levels{L}", s!"r{r}"] ++
       (if op == "merge" then [fStrD st "mf" "sum"] else []) ++
